@@ -126,6 +126,15 @@ def check_c12(rep):
     sc = [(f"c12-{p}-{s}", p, *GC.c10_script(s, p, subscribers=True, raising=(i % 3 == 0))) for i, s in enumerate(seeds(500 if q else 10000, 12))
           for p in (("at4",) if i % 2 == 0 else ("at5",))]
     run_generated(rep, "histories with subscribe / unsubscribe / double-subscribe placements, raising subscribers, subscribers that (un)subscribe inside their callback, unchanged repeats", sc)
+    # ClientImpl with subscribers: who is called for which frame, under (un)subscription at any moment, link loss
+    # with refresh, shutdown and re-init (the AC / zone objects and their subscribers are rebuilt)
+    for proto in ("at4", "at5"):
+        l2c_exhaustive(rep, f"subscribers x frames x link loss x shutdown / re-init, after the first initialisation ({proto})",
+                       dict(PROTO=f'"{proto}"', MaxEnv=4 if q else 5, MaxFrames=10, Notifies="TRUE", PostInit="TRUE", Subs="TRUE"), timeout=3000)
+    if not q:
+        l2c_sensitivity(rep, "F_ZONE2AC", dict(PROTO='"at5"', MaxEnv=4, MaxFrames=10, Notifies="TRUE", PostInit="TRUE", Subs="TRUE"), "ContractHolds")
+    l2c_replay(rep, 300 if q else 6000, over=dict(Subs="TRUE", PostInit="TRUE", MaxEnv=9, MaxFrames=12),
+               what="ClientImpl schedules with (un)subscriptions replayed into the real client")
     rep.assumptions += API_ASSUME
 
 
